@@ -31,15 +31,16 @@ def char_index(line, boff):
 def compare(ast, ptxt, line, flags, res, stats, label='single'):
     """res: parsed probe output (idx, cut, groups list); returns list of (key, what)"""
     icase, notbol, noteol = bool(flags & RE_ICASE), bool(flags & RE_NOTBOL), bool(flags & RE_NOTEOL)
+    wb = bool(flags & 8)
     idx, cut, g = res
-    M = mr.Matcher(ast, line, icase, notbol, noteol)
+    M = mr.Matcher(ast, line, icase, notbol, noteol, wordbef=wb)
     try:
         exp = M.search()
     except (mr.Budget, RecursionError):
         stats['inconclusive_budget'] += 1
         return []
     out = []
-    desc = 'pattern %r line %r flags(icase=%d,notbol=%d,noteol=%d)' % (ptxt, line, icase, notbol, noteol)
+    desc = 'pattern %r line %r flags(icase=%d,notbol=%d,noteol=%d,wordbef=%d)' % (ptxt, line, icase, notbol, noteol, wb)
     span = None
     if idx >= 0:
         so, eo = g[0], g[1]
@@ -48,7 +49,7 @@ def compare(ast, ptxt, line, flags, res, stats, label='single'):
             return [('offsets', '%s: offsets %d,%d not ordered character boundaries' % (desc, so, eo))]
         span = (a, b)
         try:
-            if not mr.Matcher(ast, line, icase, notbol, noteol).can_match(a, b):
+            if not mr.Matcher(ast, line, icase, notbol, noteol, wordbef=wb).can_match(a, b):
                 return [('genuine', '%s: reported span [%d,%d) %r cannot be matched by the pattern there' % (desc, a, b, line[a:b]))]
         except (mr.Budget, RecursionError):
             stats['inconclusive_budget'] += 1
@@ -112,7 +113,7 @@ def run_job(job):
         if c[0] == 'rset':
             text.append('rset %d 1 %s' % (c[3], hexs(c[2])))
         else:
-            text.append('find %d %d %s' % (c[3] & 6, c[5] + 2, hexs(c[4])))
+            text.append('find %d %d %s' % (c[3] & 14, c[5] + 2, hexs(c[4])))
     r = common.run([exe], ('\n'.join(text) + '\n').encode(), env=common.base_env('/tmp'), timeout=900)
     out = [l for l in r.out.decode('ascii', 'replace').split('\n') if l][1:]
     stats = new_stats()
@@ -285,7 +286,7 @@ def run(tier, V):
         items = []
         for ast in pats[i:i + 12]:
             ls = lines + R.sample(lines4, 20 if tier == 'quick' else 120)
-            cases = [(l, f) for l in ls for f in (range(8) if tier == 'thorough' else (R.sample(range(8), 3)))]
+            cases = [(l, f) for l in ls for f in (range(16) if tier == 'thorough' else (R.sample(range(16), 3)))]
             items.append((ast, cases))
         jobs.append((exe, items))
     # (b) random larger patterns
@@ -300,12 +301,12 @@ def run(tier, V):
             line = ''.join(R.choice(pool) for _ in range(L)) + R.choice(['\n', '\n', '\n', ''])
             if not line:
                 line = '\n'
-            cases.append((line, R.randrange(8)))
+            cases.append((line, R.randrange(16)))
         # lines derived from the pattern's own literals so that matches are frequent
         lits = [c for c in mr.render(ast) if c.isalnum() or ord(c) > 127] or ['a']
         for _ in range(6):
             line = ''.join(R.choice(lits + [' ', 'a', 'b']) for _ in range(R.randint(1, 14))) + '\n'
-            cases.append((line, R.randrange(8)))
+            cases.append((line, R.randrange(16)))
         items.append((ast, cases))
         if len(items) == 12:
             jobs.append((exe, items))
